@@ -425,7 +425,29 @@ func (c *Ctx) fromAPI(v ssa.Value) bool {
 		switch x := v.(type) {
 		case *ssa.Parameter:
 			f := core.Outer(x.Parent())
-			return f.Object() != nil && f.Object().Exported()
+			if f.Object() != nil && f.Object().Exported() {
+				return true
+			}
+			// a parameter of a private helper: what every call site hands in
+			if h := x.Parent(); c.P.PrivateHelper(h) {
+				idx := -1
+				for k, q := range h.Params {
+					if q == x {
+						idx = k
+					}
+				}
+				sites := c.P.Callers(h)
+				if idx < 0 || len(sites) == 0 {
+					return false
+				}
+				for _, s := range sites {
+					if idx >= len(s.Common().Args) || !c.fromAPI(s.Common().Args[idx]) {
+						return false
+					}
+				}
+				return true
+			}
+			return false
 		case *ssa.UnOp:
 			if fv, ok := x.X.(*ssa.FreeVar); ok {
 				b := c.P.Binding(fv)
